@@ -432,7 +432,88 @@ def cubes_gen(tier, seed):
     return out
 
 
+DEEP_CONTEXTS = ['{}', 'sym:b and {}', '{} or sym:c', 'sym:b or {} and sym:c',
+                 '(sym:b and {}) or sym:c', 'not ({} and sym:b)']
+
+
+def run_deep(ctx, kind, k, style):
+    """Long unary chains, deep groups and long flat chains: the number of
+    reductions one shifted token triggers grows with k.  The leaf outcomes
+    and the surrounding expression (menu) are symbolic."""
+    from oslo_policy import policy
+    common.set_ctx(ctx)
+    common.register_leaves()
+    nots = ['not', 'NOT', 'Not', 'nOt']
+    if kind == 'nots':
+        inner = 'sym:a'
+        if style == 'group-leaf':
+            inner = '(sym:a)'
+        pieces = [nots[i % len(nots)] + ' ' for i in range(k)]
+        if style == 'group-each':
+            core = inner
+            for i in range(k):
+                core = '%s (%s)' % (nots[i % len(nots)], core)
+        else:
+            core = ''.join(pieces) + inner
+        tree = ('leaf', 'sym:a')
+        for _ in range(k):
+            tree = ('not', tree)
+    elif kind == 'groups':
+        core = '(' * k + ('sym:a or sym:d' if style == 'group-each'
+                          else 'sym:a') + ')' * k
+        tree = ('or', [('leaf', 'sym:a'), ('leaf', 'sym:d')]) \
+            if style == 'group-each' else ('leaf', 'sym:a')
+    else:
+        # flat chain of k operands joined by one operator, every second
+        # operand negated
+        op = 'and' if style == 'group-leaf' else 'or'
+        names = ['sym:a', 'sym:d', 'sym:e']
+        ops = [names[i % 3] if i % 2 == 0 else 'not ' + names[i % 3]
+               for i in range(k)]
+        core = (' %s ' % op).join(ops)
+        tree = (op, [('leaf', o) if not o.startswith('not ')
+                     else ('not', ('leaf', o[4:])) for o in ops])
+        if k == 1:
+            tree = tree[1][0]
+        core = '(' + core + ')'
+    ci = ctx.choice('context', list(range(len(DEEP_CONTEXTS))))
+    ci = int(ci)
+    text = DEEP_CONTEXTS[ci].format(core)
+    hole = boolang.formula(tree, lambda v: _leafvar(v.split(':', 1)[1]))
+    want = boolang.text_formula(
+        DEEP_CONTEXTS[ci].format('sym:HOLE'),
+        lambda v: hole if v == 'sym:HOLE' else _leafvar(v.split(':', 1)[1]))
+    enf = common.mk_enforcer(rules=policy.Rules.from_dict({'p': text}))
+    got = enf.enforce('p', {}, {})
+    ctx.cover('deep:' + kind)
+    ctx.observe('text', text)
+    if isinstance(got, SymBool):
+        ctx.observe('decision', got)
+        cond = mkbool(want == got.e)
+    else:
+        ctx.observe('decision', bool(got))
+        cond = mkbool(want == bool(got))
+    ctx.require(cond, 'deep:decision', detail={'text': text})
+
+
+def cubes_deep(tier, seed):
+    out = []
+    if tier == 'quick':
+        ks = [1, 2, 3, 5, 8, 9, 10, 11, 12, 13, 16, 21, 32]
+    else:
+        ks = list(range(1, 49)) + [64, 96, 128]
+    for k in ks:
+        for style in ('plain', 'group-leaf', 'group-each'):
+            out.append({'kind': 'nots', 'k': k, 'style': style})
+        for style in ('plain', 'group-each'):
+            out.append({'kind': 'groups', 'k': k, 'style': style})
+        for style in ('group-leaf', 'plain'):
+            out.append({'kind': 'flat', 'k': k, 'style': style})
+    return out
+
+
 HARNESSES = {
+    'deep': {'fn': run_deep, 'cubes': cubes_deep},
     'tokens': {'fn': run_tokens, 'cubes': cubes_tokens},
     'lexical': {'fn': run_lexical, 'cubes': cubes_lexical},
     'lists': {'fn': run_lists, 'cubes': cubes_lists},
@@ -442,7 +523,8 @@ HARNESSES = {
 REQUIRED_COVER = ['tokens:accepted', 'tokens:rejected',
                   'tokens:not-before-group', 'tokens:A-or-B-and-C',
                   'lexical:shape0', 'lexical:shape4', 'lists:outer0',
-                  'lists:outer2', 'gen:path', 'gen:summary']
+                  'lists:outer2', 'gen:path', 'gen:summary', 'deep:nots',
+                  'deep:groups', 'deep:flat']
 
 
 def cube_weight(hname, params):
@@ -458,6 +540,12 @@ def cube_weight(hname, params):
 def evidence(tier):
     return {
         'bounds': {
+            'deep': 'chains of k stacked not (plain, around a grouped leaf, '
+                    'each level grouped), k nested groups and flat and/or '
+                    'chains of k operands, k in %s, each inside %d symbolic '
+                    'contexts; leaf outcomes symbolic' % (
+                        '{1,2,3,5,8..13,16,21,32}' if tier == 'quick'
+                        else '1..48, 64, 96, 128', len(DEEP_CONTEXTS)),
             'tokens': 'every sequence over the 6 token kinds of length <= '
                       '%d (kinds decided lazily by the solver)' % (
                           7 if tier == 'quick' else 11),
